@@ -107,6 +107,22 @@ func (vt *v2T) scenC01() {
 			vt.aliasOf = map[string]string{al.Key: src.Key, src.Key: al.Key, twin.Key: tw.Key, tw.Key: twin.Key}
 			vt.byKey = map[string]v2Doc{al.Key: al, src.Key: src, twin.Key: twin, tw.Key: tw}
 		}
+		// names are just strings: one that contains the path separator, next to a document whose name and variant are its
+		// two halves (every copy must be reported under the triple its document was added with)
+		{
+			w := func(tag string) string {
+				var ws []string
+				for i := 0; i < 3*q+5; i++ {
+					ws = append(ws, fmt.Sprintf("sep%s%c%c%c", tag, 'a'+ci, 'a'+i%26, 'a'+i/26))
+				}
+				return strings.Join(ws, " ") + "\n"
+			}
+			half := v2Doc{Key: "License/Sep/Var", Cat: "License", Name: "Sep", Variant: "Var", Data: []byte(w("h"))}
+			whole := v2Doc{Key: "License/Sep/Var/deep.txt", Cat: "License", Name: "Sep/Var", Variant: "deep.txt", Data: []byte(w("w"))}
+			vt.add(c, half)
+			vt.add(c, whole)
+			extra = append(extra, half, whole)
+		}
 		all := append(append([]v2Doc(nil), docs...), extra...)
 		idx := vt.sample(len(docs), cf.ndocs)
 		for i := range extra {
